@@ -242,6 +242,56 @@ fn term_of(v: &LNarsese) -> &LTerm {
 }
 
 // -------------------------------------------------------------------------------------------
+// lexical values built through the PUBLIC VARIANTS / struct literals
+// -------------------------------------------------------------------------------------------
+// The property quantifies over every lexical value, i.e. over everything the public enum variants and the
+// public fields can hold.  The convenience constructors (`Term::new_set`, `Sentence::new`, the `lexical_*!`
+// macros) are library code: if one of them ever normalises its arguments (drops repeated components, sorts,
+// trims), a generator that builds its values through them can only produce values that are already normal
+// and never sees that parse(format(x)) loses information.  Every value of the lexical streams is therefore
+// built with the literals below.
+pub fn mk_atom(prefix: impl Into<String>, name: impl Into<String>) -> LTerm {
+    LTerm::Atom { prefix: prefix.into(), name: name.into() }
+}
+pub fn mk_compound(connecter: impl Into<String>, terms: Vec<LTerm>) -> LTerm {
+    LTerm::Compound { connecter: connecter.into(), terms }
+}
+pub fn mk_set(left_bracket: impl Into<String>, terms: Vec<LTerm>, right_bracket: impl Into<String>) -> LTerm {
+    LTerm::Set { left_bracket: left_bracket.into(), terms, right_bracket: right_bracket.into() }
+}
+pub fn mk_statement(copula: impl Into<String>, subject: LTerm, predicate: LTerm) -> LTerm {
+    LTerm::Statement { copula: copula.into(), subject: Box::new(subject), predicate: Box::new(predicate) }
+}
+pub fn mk_sentence(term: LTerm, punctuation: impl Into<String>, stamp: impl Into<String>, truth: Vec<String>) -> LSentence {
+    LSentence { term, punctuation: punctuation.into(), stamp: stamp.into(), truth }
+}
+
+/// which kinds of repetition a term contains (for the histogram): components of one compound / set that are
+/// equal and adjacent, equal and not adjacent, a statement whose two operands are equal
+pub fn repeats(t: &LTerm, out: &mut [bool; 3]) {
+    match t {
+        LTerm::Atom { .. } => {}
+        LTerm::Compound { terms, .. } | LTerm::Set { terms, .. } => {
+            for i in 0..terms.len() {
+                for j in i + 1..terms.len() {
+                    if terms[i] == terms[j] {
+                        out[if j == i + 1 { 0 } else { 1 }] = true;
+                    }
+                }
+                repeats(&terms[i], out);
+            }
+        }
+        LTerm::Statement { subject, predicate, .. } => {
+            if subject == predicate {
+                out[2] = true;
+            }
+            repeats(subject, out);
+            repeats(predicate, out);
+        }
+    }
+}
+
+// -------------------------------------------------------------------------------------------
 // generators of lexical values over the real dictionaries
 // -------------------------------------------------------------------------------------------
 pub struct LexGen<'a> {
@@ -253,6 +303,8 @@ pub struct LexGen<'a> {
     pub strict_names: bool,
     /// foreign keywords / zero components / garbage allowed?
     pub wild: bool,
+    /// alphabet of the names, when not the format's usual one (e.g. non-ASCII names in the ASCII format)
+    pub style_override: Option<NameStyle>,
 }
 
 const NUMBERS: &[&str] = &["0.5", "1", "0", "1.0", "0.9", "0.75", "0.123456789", "007", ".5", "5.", ".", "1e", "12345678901234567890", "0.4", "0.999"];
@@ -260,6 +312,9 @@ const STAMP_CONTENTS: &[&str] = &["", "1", "-1", "+137", "0", "-", "+-", "999999
 
 impl<'a> LexGen<'a> {
     fn style(&self) -> NameStyle {
+        if let Some(st) = self.style_override {
+            return st;
+        }
         match self.fm.idx {
             0 => NameStyle::Ascii,
             1 => NameStyle::Mixed,
@@ -296,6 +351,11 @@ impl<'a> LexGen<'a> {
             6 => 4,
             _ => 5,
         };
+        if k >= 2 && rng.chance(1, 5) {
+            // the same entry k times
+            let x = self.number(rng);
+            return (0..k).map(|_| x.clone()).collect();
+        }
         (0..k).map(|_| self.number(rng)).collect()
     }
     fn stamp(&self, rng: &mut Rng) -> String {
@@ -331,7 +391,7 @@ impl<'a> LexGen<'a> {
     pub fn atom(&self, rng: &mut Rng) -> LTerm {
         let prefix = if self.wild && rng.chance(1, 10) { self.foreign(rng, &self.v.prefixes) } else if rng.chance(1, 2) { String::new() } else { rng.pick(&self.v.prefixes).clone() };
         let name = if !self.strict_names && !prefix.is_empty() && rng.chance(1, 6) { String::new() } else { self.name(rng) };
-        LTerm::new_atom(prefix, name)
+        mk_atom(prefix, name)
     }
     fn comps(&self, rng: &mut Rng, depth: usize) -> Vec<LTerm> {
         let lo = if self.wild && rng.chance(1, 8) { 0 } else { 1 };
@@ -342,14 +402,35 @@ impl<'a> LexGen<'a> {
             4 => 1,
             _ => rng.range(lo, 5),
         };
-        (0..k).map(|_| self.term(rng, depth + 1)).collect()
+        let mut v: Vec<LTerm> = (0..k).map(|_| self.term(rng, depth + 1)).collect();
+        // repeated components (the lexical model does not interpret them: no set semantics, no arity rules):
+        // a copy directly after its original, a copy somewhere else, or all components equal
+        if !v.is_empty() && rng.chance(1, 4) {
+            let i = rng.below(v.len());
+            let x = v[i].clone();
+            match rng.below(4) {
+                0 | 1 => v.insert(i + 1, x),
+                2 => {
+                    if rng.chance(1, 2) {
+                        v.push(x)
+                    } else {
+                        v.insert(0, x)
+                    }
+                }
+                _ => {
+                    let k = v.len().max(2);
+                    v = (0..k).map(|_| x.clone()).collect();
+                }
+            }
+        }
+        v
     }
     pub fn term_kind(&self, rng: &mut Rng, depth: usize, kind: usize) -> LTerm {
         match kind {
             0 => self.atom(rng),
             1 => {
                 let c = if self.wild && rng.chance(1, 10) { self.foreign(rng, &self.v.connecters) } else { rng.pick(&self.v.connecters).clone() };
-                LTerm::new_compound(c, self.comps(rng, depth))
+                mk_compound(c, self.comps(rng, depth))
             }
             2 => {
                 let (a, b) = if self.wild && rng.chance(1, 10) {
@@ -357,11 +438,14 @@ impl<'a> LexGen<'a> {
                 } else {
                     rng.pick(&self.v.set_brackets).clone()
                 };
-                LTerm::new_set(a, self.comps(rng, depth), b)
+                mk_set(a, self.comps(rng, depth), b)
             }
             _ => {
                 let c = if self.wild && rng.chance(1, 10) { self.foreign(rng, &self.v.copulas) } else { rng.pick(&self.v.copulas).clone() };
-                LTerm::new_statement(c, self.term(rng, depth + 1), self.term(rng, depth + 1))
+                let subject = self.term(rng, depth + 1);
+                // both operands equal, now and then
+                let predicate = if rng.chance(1, 6) { subject.clone() } else { self.term(rng, depth + 1) };
+                mk_statement(c, subject, predicate)
             }
         }
     }
@@ -374,7 +458,7 @@ impl<'a> LexGen<'a> {
     }
     pub fn sentence(&self, rng: &mut Rng, term: LTerm) -> LSentence {
         let p = if self.wild && rng.chance(1, 12) { (*rng.pick::<&str>(&["", "x", "..", "%"])).to_string() } else { rng.pick(&self.v.punctuations).clone() };
-        LSentence::new(term, p, self.stamp(rng), self.numbers(rng))
+        mk_sentence(term, p, self.stamp(rng), self.numbers(rng))
     }
     /// kind: 0 term, 1 sentence, 2 task; top: top-level term kind if given
     pub fn narsese(&self, rng: &mut Rng, kind: usize, top: Option<usize>) -> LNarsese {
@@ -469,6 +553,138 @@ fn shape(v: &LNarsese) -> String {
 }
 
 // -------------------------------------------------------------------------------------------
+// values with repeated components
+// -------------------------------------------------------------------------------------------
+/// Every container of the format (each set bracket pair, each connecter, each copula) with REPEATED components:
+/// equal neighbours, equal components that are not neighbours, all components equal, both operands of a statement
+/// equal; the repeated component an atom, a compound, a set, a statement; nested (the repeated component itself
+/// contains repetitions); as bare terms, sentences and tasks (there with repeated truth / budget entries).
+/// The lexical model does not interpret any of this: format-then-parse must return the value as it is.
+pub fn repeat_corners(fm: &Fm, v: &Vocab, dom: &Dom) -> Vec<LNarsese> {
+    let pick_name = |cands: &[&str]| -> String { cands.iter().find(|n| dom.name_ok(n)).map(|n| n.to_string()).unwrap_or_else(|| "n".to_string()) };
+    let (na, nb) = if fm.idx == 2 { (pick_name(&["甲", "a"]), pick_name(&["乙", "b"])) } else { (pick_name(&["a", "x"]), pick_name(&["b", "y"])) };
+    let a = mk_atom("", na);
+    let b = mk_atom("", nb);
+    let (sl, sr) = v.set_brackets[0].clone();
+    let elems: Vec<LTerm> = vec![
+        a.clone(),
+        mk_atom(v.prefixes.iter().find(|p| !p.is_empty()).cloned().unwrap_or_default(), "n1"),
+        mk_compound(v.connecters[0].clone(), vec![a.clone()]),
+        mk_set(sl.clone(), vec![a.clone()], sr.clone()),
+        mk_statement(v.copulas[0].clone(), a.clone(), b.clone()),
+    ];
+    let patterns = |x: &LTerm, y: &LTerm| -> Vec<Vec<LTerm>> {
+        let (x, y) = (x.clone(), y.clone());
+        vec![
+            vec![x.clone(), x.clone()],
+            vec![x.clone(), x.clone(), y.clone()],
+            vec![y.clone(), x.clone(), x.clone()],
+            vec![x.clone(), y.clone(), x.clone()],
+            vec![x.clone(), x.clone(), x.clone()],
+            vec![x.clone(), y.clone(), x.clone(), y.clone()],
+            vec![x.clone(), x.clone(), y.clone(), y.clone()],
+        ]
+    };
+    let mut terms: Vec<LTerm> = vec![];
+    for (ei, x) in elems.iter().enumerate() {
+        for (l, r) in v.set_brackets.iter() {
+            for p in patterns(x, &b) {
+                terms.push(mk_set(l.clone(), p, r.clone()));
+            }
+        }
+        for (ci, c) in v.connecters.iter().enumerate() {
+            // every connecter with the repeated atom; two connecters with the other repeated components
+            if ei == 0 || ci < 2 {
+                for p in patterns(x, &b) {
+                    terms.push(mk_compound(c.clone(), p));
+                }
+            }
+        }
+        for c in v.copulas.iter() {
+            terms.push(mk_statement(c.clone(), x.clone(), x.clone()));
+        }
+    }
+    // nested: the repeated component contains repetitions itself; statements between equal containers
+    let inner_set = mk_set(sl.clone(), vec![a.clone(), a.clone()], sr.clone());
+    let inner_cmp = mk_compound(v.connecters[0].clone(), vec![a.clone(), a.clone(), b.clone()]);
+    for inner in [inner_set.clone(), inner_cmp.clone()] {
+        for (l, r) in v.set_brackets.iter() {
+            terms.push(mk_set(l.clone(), vec![inner.clone(), inner.clone()], r.clone()));
+            terms.push(mk_set(l.clone(), vec![mk_set(l.clone(), vec![inner.clone(), inner.clone()], r.clone()), mk_set(l.clone(), vec![inner.clone(), inner.clone()], r.clone())], r.clone()));
+        }
+        terms.push(mk_compound(v.connecters[1 % v.connecters.len()].clone(), vec![inner.clone(), b.clone(), inner.clone(), inner.clone()]));
+        terms.push(mk_statement(v.copulas[0].clone(), inner.clone(), inner.clone()));
+        terms.push(mk_statement(v.copulas[0].clone(), mk_statement(v.copulas[0].clone(), inner.clone(), inner.clone()), mk_statement(v.copulas[0].clone(), inner.clone(), inner.clone())));
+    }
+    let mut out: Vec<LNarsese> = vec![];
+    let np = v.punctuations.len();
+    for (i, t) in terms.into_iter().enumerate() {
+        match i % 5 {
+            3 => out.push(LNarsese::Sentence(mk_sentence(t, v.punctuations[i % np].clone(), "", vec!["0.5".to_string(), "0.5".to_string()]))),
+            4 => out.push(LNarsese::Task(LTask {
+                budget: vec!["0.5".to_string(), "0.5".to_string(), "0.5".to_string()],
+                sentence: mk_sentence(t, v.punctuations[i % np].clone(), "", vec!["1".to_string(), "1".to_string()]),
+            })),
+            _ => out.push(LNarsese::Term(t)),
+        }
+    }
+    out
+}
+
+// -------------------------------------------------------------------------------------------
+// whitespace
+// -------------------------------------------------------------------------------------------
+/// The 25 code points with the Unicode White_Space property (= char::is_whitespace, compared with std and with the model's
+/// table on every run by `LWhitespaceC`); the first six are the ASCII ones.
+pub const WHITE_SPACE: [char; 25] = [
+    '\u{9}', '\u{a}', '\u{b}', '\u{c}', '\u{d}', '\u{20}', '\u{85}', '\u{a0}', '\u{1680}', '\u{2000}', '\u{2001}', '\u{2002}', '\u{2003}', '\u{2004}', '\u{2005}', '\u{2006}',
+    '\u{2007}', '\u{2008}', '\u{2009}', '\u{200a}', '\u{2028}', '\u{2029}', '\u{202f}', '\u{205f}', '\u{3000}',
+];
+const N_ASCII_WS: usize = 6;
+
+/// The whitespace characters tried on the i-th text of a class.  A text that is otherwise pure ASCII stays pure ASCII only
+/// with one of the six ASCII whitespace characters: it gets ALL of them, plus `extra` of the 19 others in rotation; a text
+/// with a non-ASCII character gets `extra + 2` of all 25 in rotation.  (Over 25 texts per class every character occurs.)
+pub fn ws_choice(ascii_text: bool, i: usize, extra: usize) -> Vec<char> {
+    if ascii_text {
+        let mut v: Vec<char> = WHITE_SPACE[..N_ASCII_WS].to_vec();
+        let rest = WHITE_SPACE.len() - N_ASCII_WS;
+        v.extend((0..extra).map(|j| WHITE_SPACE[N_ASCII_WS + (i * extra + j) % rest]));
+        v
+    } else {
+        let k = extra + 2;
+        (0..k).map(|j| WHITE_SPACE[(i * k + j) % WHITE_SPACE.len()]).collect()
+    }
+}
+
+pub const RESEPARATE_MODES: [&str; 4] = ["in place of every blank", "twice in place of every blank", "before and after the text", "after every blank, and at the end"];
+/// formatter output with its blanks rewritten
+pub fn reseparate(s: &str, c: char, mode: usize) -> String {
+    let mut w = String::new();
+    if mode == 2 {
+        w.push(c);
+    }
+    for x in s.chars() {
+        match (x, mode) {
+            (' ', 0) => w.push(c),
+            (' ', 1) => {
+                w.push(c);
+                w.push(c)
+            }
+            (' ', 3) => {
+                w.push(' ');
+                w.push(c)
+            }
+            _ => w.push(x),
+        }
+    }
+    if mode >= 2 {
+        w.push(c);
+    }
+    w
+}
+
+// -------------------------------------------------------------------------------------------
 // C02: lexical format then parse
 // -------------------------------------------------------------------------------------------
 pub fn run_c02(o: &Opts) -> Report {
@@ -488,8 +704,8 @@ pub fn run_c02(o: &Opts) -> Report {
         let kw = keywords(fm.l, &v);
         let dom = Dom { l: fm.l, v: &v, kw: &kw };
         let depth = if o.thorough { 5 } else { 4 };
-        let strict = LexGen { fm: &fm, v: &v, kw: &kw, max_depth: depth, strict_names: true, wild: false };
-        let wild = LexGen { fm: &fm, v: &v, kw: &kw, max_depth: depth, strict_names: false, wild: true };
+        let strict = LexGen { fm: &fm, v: &v, kw: &kw, max_depth: depth, strict_names: true, wild: false, style_override: None };
+        let wild = LexGen { fm: &fm, v: &v, kw: &kw, max_depth: depth, strict_names: false, wild: true, style_override: None };
         let mut values: Vec<(LNarsese, bool)> = vec![];
         for k in 0..12 {
             values.push((strict.narsese(&mut rng, k % 3, Some(k % 4)), true));
@@ -500,22 +716,30 @@ pub fn run_c02(o: &Opts) -> Report {
         for i in 0..(per / 3).max(8) {
             values.push((wild.narsese(&mut rng, i % 3, None), false));
         }
+        // names from the other alphabets (non-ASCII names in the ASCII format, ASCII-only names in LaTeX / Han): whether a text
+        // is pure ASCII or not must not matter anywhere
+        {
+            let other = LexGen { fm: &fm, v: &v, kw: &kw, max_depth: 3, strict_names: true, wild: false, style_override: Some(if fm.idx == 0 { NameStyle::Mixed } else { NameStyle::Ascii }) };
+            for i in 0..(per / 3).max(12) {
+                values.push((other.narsese(&mut rng, i % 3, if i < 12 { Some(1 + i % 3) } else { None }), true));
+            }
+        }
         // corners of the item layer, for every format: an atom that begins like a budget (prefix = budget bracket,
         // numeric name), every stamp form with empty content, empty budget, bare atoms ending in stamp / truth
         // content characters, every punctuation with every prefix, single-entry and five-entry truths
         {
-            let num = |s: &str| LTerm::new_atom("", s);
+            let num = |s: &str| mk_atom("", s);
             let bl = fm.l.task.budget_brackets.0.clone();
             for p in v.prefixes.iter() {
                 for name in ["1", "0", "12", "a", "x1", "a1"] {
                     if !dom.name_ok(name) {
                         continue;
                     }
-                    let a = LTerm::new_atom(p.clone(), name);
+                    let a = mk_atom(p.clone(), name);
                     values.push((LNarsese::Term(a.clone()), true));
                     for q in v.punctuations.iter() {
-                        values.push((LNarsese::Sentence(LSentence::new(a.clone(), q.clone(), "", vec![])), true));
-                        values.push((LNarsese::Sentence(LSentence::new(a.clone(), q.clone(), "", vec!["1".to_string()])), true));
+                        values.push((LNarsese::Sentence(mk_sentence(a.clone(), q.clone(), "", vec![])), true));
+                        values.push((LNarsese::Sentence(mk_sentence(a.clone(), q.clone(), "", vec!["1".to_string()])), true));
                     }
                 }
                 if *p == bl {
@@ -529,26 +753,33 @@ pub fn run_c02(o: &Opts) -> Report {
                     }
                     let st = format!("{}{}{}", a, content, b);
                     for tv in [vec![], vec!["0.5".to_string()], vec!["1".to_string(), "0.9".to_string(), ".".to_string(), "7".to_string(), "0".to_string()]] {
-                        values.push((LNarsese::Sentence(LSentence::new(num("a"), v.punctuations[0].clone(), st.clone(), tv.clone())), true));
-                        values.push((LNarsese::Task(LTask { budget: vec![], sentence: LSentence::new(num("12"), v.punctuations[1].clone(), st.clone(), tv.clone()) }), true));
-                        values.push((LNarsese::Task(LTask { budget: vec!["0.1".to_string()], sentence: LSentence::new(LTerm::new_set(v.set_brackets[0].0.clone(), vec![num("a")], v.set_brackets[0].1.clone()), v.punctuations[2].clone(), st.clone(), tv) }), true));
+                        values.push((LNarsese::Sentence(mk_sentence(num("a"), v.punctuations[0].clone(), st.clone(), tv.clone())), true));
+                        values.push((LNarsese::Task(LTask { budget: vec![], sentence: mk_sentence(num("12"), v.punctuations[1].clone(), st.clone(), tv.clone()) }), true));
+                        values.push((LNarsese::Task(LTask { budget: vec!["0.1".to_string()], sentence: mk_sentence(mk_set(v.set_brackets[0].0.clone(), vec![num("a")], v.set_brackets[0].1.clone()), v.punctuations[2].clone(), st.clone(), tv) }), true));
                     }
                 }
             }
         }
         // the K5 witness of DESIGN.md and its harmless neighbours
         if fm.idx == 2 {
-            values.push((LNarsese::Term(LTerm::new_statement("得", LTerm::new_atom("", "x将"), LTerm::new_atom("", "y"))), true));
-            values.push((LNarsese::Term(LTerm::new_statement("有", LTerm::new_atom("", "x具"), LTerm::new_atom("", "y"))), true));
-            values.push((LNarsese::Term(LTerm::new_statement("是", LTerm::new_atom("", "x将"), LTerm::new_atom("", "y"))), true));
+            values.push((LNarsese::Term(mk_statement("得", mk_atom("", "x将"), mk_atom("", "y"))), true));
+            values.push((LNarsese::Term(mk_statement("有", mk_atom("", "x具"), mk_atom("", "y"))), true));
+            values.push((LNarsese::Term(mk_statement("是", mk_atom("", "x将"), mk_atom("", "y"))), true));
         }
         // one wide value: > 128 non-atomic components in one compound / set (depth counters, recursion guards)
         {
-            let atom = |i: usize| LTerm::new_atom("", if fm.idx == 2 { format!("甲{}", i) } else { format!("w{}", i) });
-            let items: Vec<LTerm> = (0..140).map(|i| if i % 2 == 0 { LTerm::new_set(v.set_brackets[0].0.clone(), vec![atom(i)], v.set_brackets[0].1.clone()) } else { LTerm::new_statement(v.copulas[0].clone(), atom(i), atom(0)) }).collect();
-            values.push((LNarsese::Term(LTerm::new_compound(v.connecters[0].clone(), items.clone())), true));
-            values.push((LNarsese::Term(LTerm::new_set(v.set_brackets[0].0.clone(), items, v.set_brackets[0].1.clone())), true));
+            let atom = |i: usize| mk_atom("", if fm.idx == 2 { format!("甲{}", i) } else { format!("w{}", i) });
+            let items: Vec<LTerm> = (0..140).map(|i| if i % 2 == 0 { mk_set(v.set_brackets[0].0.clone(), vec![atom(i)], v.set_brackets[0].1.clone()) } else { mk_statement(v.copulas[0].clone(), atom(i), atom(0)) }).collect();
+            values.push((LNarsese::Term(mk_compound(v.connecters[0].clone(), items.clone())), true));
+            values.push((LNarsese::Term(mk_set(v.set_brackets[0].0.clone(), items, v.set_brackets[0].1.clone())), true));
         }
+        // repeated components, systematically (see `repeat_corners`)
+        for x in repeat_corners(&fm, &v, &dom) {
+            values.push((x, true));
+        }
+        // texts for the separator stream below: (value, formatter output), all-ASCII texts and texts with a non-ASCII character apart
+        let cap = if o.thorough { 100 } else { 25 };
+        let mut resp: [Vec<(LNarsese, String)>; 2] = [vec![], vec![]];
         for (x, intended) in values {
             let Some(s) = cx.fmt_case(&fm, &x) else {
                 cx.fail("values", "formatting a lexical value panicked", format!("[{}] {:?}", fm.name, x), "a string".into(), "PANIC".into(), None);
@@ -591,6 +822,50 @@ pub fn run_c02(o: &Opts) -> Report {
                 } else if let Some(k) = known {
                     cx.rep.hist.add(format!("known-class-but-round-trips:{}", k));
                 }
+                let mut rp = [false; 3];
+                repeats(term_of(&x), &mut rp);
+                for (k, name) in ["adjacent", "non-adjacent", "statement-with-equal-operands"].iter().enumerate() {
+                    if rp[k] {
+                        cx.rep.hist.add(format!("{}:repeated-components:{}:{}", fm.name, name, if good { "round-trips" } else { "DIFFERS" }));
+                    }
+                }
+                let class = if s.is_ascii() { 0 } else { 1 };
+                if good && known.is_none() && resp[class].len() < cap && s.contains(' ') && s.chars().count() <= 160 {
+                    resp[class].push((x.clone(), s.clone()));
+                }
+            }
+        }
+        // Separators.  The blanks in the formatter's output are separators the formatter chose; the parser's first step
+        // (idealize_env) discards every character of the format's `is_for_parse` class = char::is_whitespace, whatever the
+        // rest of the input looks like.  So the same token sequence written with any other White_Space character where the
+        // formatter wrote a blank (or with such characters in front, behind, doubled) is, for the parser, the formatter's
+        // output: it must come back as x.  (This composes C02 with the whitespace clause of C09; it is evaluated here
+        // because it is the parse of C02 -- same entry point, same values -- that is exercised.)  Every one of the 25
+        // White_Space characters is used, on texts that are otherwise pure ASCII and, separately, on texts that contain
+        // a non-ASCII character; the model parses every variant as well.
+        for class in 0..2 {
+            for (i, (x, s)) in resp[class].iter().enumerate() {
+                for (j, c) in ws_choice(class == 0, i, 2).into_iter().enumerate() {
+                    let mode = (i + j) % 4;
+                    let w = reseparate(s, c, mode);
+                    let r = cx.parse_case(&fm, &w);
+                    cx.rep.hist.add(format!("{}:separators:{}:mode{}:{}", fm.name, if class == 0 { "ascii-text" } else { "non-ascii-text" }, mode, pr_tag(&r)));
+                    cx.rep.hist.add(format!("separators:U+{:04X}:{}", c as u32, if class == 0 { "ascii-text" } else { "non-ascii-text" }));
+                    if !matches!(&r, Ok(Some(w2)) if w2 == x) {
+                        cx.fail(
+                            "separators",
+                            "parse(format(x)) with the formatter's blanks written as another White_Space character differs from x",
+                            format!("[{}] {:?} (U+{:04X}, {}; the formatter wrote {:?})", fm.name, w, c as u32, RESEPARATE_MODES[mode], s),
+                            format!("{:?}", x),
+                            match &r {
+                                Ok(Some(w2)) => format!("{:?}", w2),
+                                Ok(None) => "Err".into(),
+                                Err(()) => "PANIC".into(),
+                            },
+                            None,
+                        );
+                    }
+                }
             }
         }
     }
@@ -600,20 +875,20 @@ pub fn run_c02(o: &Opts) -> Report {
     for fm in formats() {
         let v = vocab(fm.l);
         let ph = fm.e.atom.prefix_placeholder.to_string();
-        let a = LTerm::new_atom("", if fm.idx == 2 { "甲" } else { "A" });
-        let hole = LTerm::new_atom(ph.clone(), "");
+        let a = mk_atom("", if fm.idx == 2 { "甲" } else { "A" });
+        let hole = mk_atom(ph.clone(), "");
         let mut xs: Vec<LTerm> = vec![];
         for c in &v.copulas {
-            xs.push(LTerm::new_statement(c.clone(), hole.clone(), a.clone()));
-            xs.push(LTerm::new_statement(c.clone(), a.clone(), hole.clone()));
-            xs.push(LTerm::new_statement(c.clone(), LTerm::new_statement(c.clone(), hole.clone(), a.clone()), a.clone()));
+            xs.push(mk_statement(c.clone(), hole.clone(), a.clone()));
+            xs.push(mk_statement(c.clone(), a.clone(), hole.clone()));
+            xs.push(mk_statement(c.clone(), mk_statement(c.clone(), hole.clone(), a.clone()), a.clone()));
         }
         for c in &v.connecters {
-            xs.push(LTerm::new_compound(c.clone(), vec![a.clone(), hole.clone(), a.clone()]));
-            xs.push(LTerm::new_compound(c.clone(), vec![hole.clone()]));
+            xs.push(mk_compound(c.clone(), vec![a.clone(), hole.clone(), a.clone()]));
+            xs.push(mk_compound(c.clone(), vec![hole.clone()]));
         }
         for (l, r) in &v.set_brackets {
-            xs.push(LTerm::new_set(l.clone(), vec![hole.clone(), a.clone()], r.clone()));
+            xs.push(mk_set(l.clone(), vec![hole.clone(), a.clone()], r.clone()));
         }
         for t in xs {
             for x in [LNarsese::Term(t.clone()), LNarsese::Sentence(LSentence { term: t.clone(), punctuation: v.punctuations[0].clone(), stamp: String::new(), truth: vec![] })] {
@@ -758,8 +1033,8 @@ fn malformed_lex(rng: &mut Rng, fm: &Fm, v: &Vocab, kw: &[String], n: usize, tho
     let pool = lex_keyword_pool(fm, v, kw);
     let mut out = lex_stress(fm, v, rng, 64);
     let depth = if thorough { 5 } else { 4 };
-    let strict = LexGen { fm, v, kw, max_depth: depth, strict_names: true, wild: false };
-    let wild = LexGen { fm, v, kw, max_depth: depth, strict_names: false, wild: true };
+    let strict = LexGen { fm, v, kw, max_depth: depth, strict_names: true, wild: false, style_override: None };
+    let wild = LexGen { fm, v, kw, max_depth: depth, strict_names: false, wild: true, style_override: None };
     let eg = term_gen_for(fm, depth, 4);
     let mut texts: Vec<String> = vec![];
     for i in 0..(n / 4 + 6) {
@@ -875,4 +1150,211 @@ pub fn run_c05(o: &Opts) -> Report {
     c05_parser_stream(o, &mut cx, &mut rng);
     let cases = std::mem::take(&mut cx.cases);
     finish(o, "C05", rep, cases)
+}
+
+// -------------------------------------------------------------------------------------------
+// C09, lexical half: every White_Space character, in texts that are pure ASCII and in texts that are not
+// -------------------------------------------------------------------------------------------
+pub const WS_MODES: [&str; 7] = [
+    "at every token boundary, no other blank",
+    "twice at every token boundary",
+    "before and after the dense text",
+    "canonical spacing, once or twice at some token boundaries",
+    "in place of every blank of the canonical text",
+    "after the canonical text",
+    "before the canonical text",
+];
+
+/// a token sequence written with the whitespace character `c`
+pub fn ws_variant(toks: &crate::enumgen::Toks, c: char, mode: usize, rng: &mut Rng) -> String {
+    let n = toks.toks.len();
+    let mut w = String::new();
+    if mode == 2 || mode == 6 {
+        w.push(c);
+    }
+    // mode 3: at least one boundary gets the character
+    let forced = if n > 1 { rng.below(n - 1) } else { 0 };
+    for (i, t) in toks.toks.iter().enumerate() {
+        w.push_str(t);
+        if i + 1 == n {
+            break;
+        }
+        match mode {
+            0 => w.push(c),
+            1 => {
+                w.push(c);
+                w.push(c)
+            }
+            2 => {}
+            3 => {
+                w.push_str(&toks.gaps[i]);
+                if i == forced || rng.chance(1, 3) {
+                    for _ in 0..rng.range(1, 2) {
+                        w.push(c);
+                    }
+                }
+            }
+            4 => w.extend(toks.gaps[i].chars().map(|g| if g == ' ' { c } else { g })),
+            _ => w.push_str(&toks.gaps[i]),
+        }
+    }
+    if mode == 2 || mode == 5 {
+        w.push(c);
+    }
+    w
+}
+
+/// Lexical half of C09 ("the lexical parser additionally ignores every Unicode whitespace character", for the lexical parser
+/// and for lexical-parse-then-fold, all three formats).  The enum-side stream of `enumprops::run_c09` re-spaces with blanks
+/// and a handful of exotic characters mixed into one text; what it cannot see is a parser that treats whitespace differently
+/// depending on WHICH character it is or on what ELSE the input contains (a fast path for pure-ASCII input, a byte-level
+/// predicate, a table that lacks one code point).  Here every one of the 25 White_Space characters is written, alone,
+/// into the token sequence of well-formed values -- at every token boundary, doubled, leading, trailing, next to the
+/// canonical blanks, in their place -- for texts that are otherwise pure ASCII (all six ASCII whitespace characters each,
+/// so that the text stays pure ASCII) and for texts with non-ASCII names or keywords.
+/// On the real code: the lexical parse of every variant equals the lexical parse of the dense text (no whitespace at all),
+/// and so does parse-then-fold.  Model: every variant is parsed by the lexical parser model as well (Run/LexRun.v; Props/C09d.v
+/// proves the invariance for the MODEL, so a deviating implementation shows up as a correspondence mismatch); these cases
+/// form a second set of shards appended to the report.
+pub fn c09_lexical_ws(o: &Opts, mut rep: Report) -> Report {
+    use crate::enumgen::{c01_known, canon_narsese, gen_narsese, narsese_tokens, term_gen_for, Sugar};
+    use crate::enumprops::{real_lexfold, risky_names};
+    use narsese::api::GetTerm;
+    use narsese::enum_narsese::Narsese as ENarsese;
+    let canon = |r: &PR<ENarsese>| -> String {
+        match r {
+            Ok(Some(v)) => canon_narsese(v),
+            Ok(None) => "Err".into(),
+            Err(()) => "PANIC".into(),
+        }
+    };
+    let show = |r: &PR<LNarsese>| -> String {
+        match r {
+            Ok(Some(v)) => format!("{:?}", v),
+            Ok(None) => "Err".into(),
+            Err(()) => "PANIC".into(),
+        }
+    };
+    let mut rng = Rng::new(o.seed ^ 0xC09_1E);
+    let offset = rep.case_descr.len();
+    let mut cases: Vec<String> = vec!["LWhitespaceC".into()];
+    rep.case_descr.push("char::is_whitespace = the model's 25 code points".into());
+    // std's own table against the list used here
+    {
+        let std_ws: Vec<char> = (0..=0x10FFFFu32).filter_map(char::from_u32).filter(|c| c.is_whitespace()).collect();
+        if std_ws != WHITE_SPACE.to_vec() {
+            rep.hist.add("lexical-whitespace:WHITE_SPACE list differs from char::is_whitespace (harness out of date)");
+        }
+    }
+    let per = (o.n / 15).clamp(20, 150);
+    for fm in formats() {
+        // [0] texts that are pure ASCII, [1] texts that are not
+        let mut count = [0usize; 2];
+        let mut tries = 0;
+        while ((count[0] < per && fm.idx != 2) || count[1] < per) && tries < per * 40 {
+            tries += 1;
+            // names: the format's own alphabet and the opposite one (non-ASCII names in the ASCII format, ASCII names in LaTeX / Han)
+            let mut g = term_gen_for(&fm, 3, 3);
+            let want_ascii = fm.idx != 2 && count[0] <= count[1];
+            g.style = if want_ascii {
+                NameStyle::Ascii
+            } else if fm.idx == 2 {
+                if tries % 2 == 0 {
+                    NameStyle::Han
+                } else {
+                    NameStyle::Ascii
+                }
+            } else {
+                NameStyle::Mixed
+            };
+            let v = gen_narsese(&mut rng, &g, tries % 3, if tries % 4 == 0 { None } else { Some(7 + tries % 23) });
+            let text = fm.e.format_narsese(&v);
+            if c01_known(fm.e, &v, &text).is_some() || risky_names(fm.e, v.get_term()) {
+                rep.hist.add(format!("{}:lexical-whitespace:skipped-known-class-or-risky-name", fm.name));
+                continue;
+            }
+            let toks = narsese_tokens(fm.e, &v, Sugar::None, &mut rng);
+            if toks.canonical() != text || toks.toks.len() < 2 || text.chars().count() > 140 {
+                continue;
+            }
+            let class = if text.is_ascii() { 0 } else { 1 };
+            if count[class] >= per {
+                continue;
+            }
+            let i = count[class];
+            count[class] += 1;
+            let dense = toks.join(0, &mut rng, "");
+            let base = real_lex_parse(fm.l, &dense);
+            let base_fold = real_lexfold(&fm, &dense);
+            rep.evaluations += 2;
+            cases.push(format!("LParseC {} {} {}", fm.idx, cstr(&dense), clres(&base, clnarsese)));
+            rep.case_descr.push(format!("lexical parse[{}] {:?}", fm.name, dense));
+            rep.hist.add(format!(
+                "{}:lexical-whitespace:dense:{}:fold {}",
+                fm.name,
+                pr_tag(&base),
+                if canon(&base_fold) == canon_narsese(&v) { "= the value" } else { "differs from the value (K3-like, not judged here)" }
+            ));
+            if !matches!(base, Ok(Some(_))) {
+                continue;
+            }
+            let cname = if class == 0 { "ascii-text" } else { "non-ascii-text" };
+            let mut variants: Vec<(String, String)> = vec![];
+            for (j, c) in ws_choice(class == 0, i, 2).into_iter().enumerate() {
+                for mode in [0, 1 + (i + j) % 6] {
+                    variants.push((ws_variant(&toks, c, mode, &mut rng), format!("U+{:04X} {}", c as u32, WS_MODES[mode])));
+                    rep.hist.add(format!("lexical-whitespace:U+{:04X}:{}", c as u32, cname));
+                    rep.hist.add(format!("{}:lexical-whitespace:{}:mode{}", fm.name, cname, mode));
+                }
+            }
+            // all characters mixed: 0-2 random White_Space characters at every token boundary, and around the text
+            {
+                let mut w = String::new();
+                for t in std::iter::once(&String::new()).chain(toks.toks.iter()) {
+                    w.push_str(t);
+                    for _ in 0..rng.below(3) {
+                        w.push(*rng.pick::<char>(&WHITE_SPACE));
+                    }
+                }
+                variants.push((w, "random White_Space characters at every token boundary".into()));
+            }
+            for (w, how) in variants {
+                let r = real_lex_parse(fm.l, &w);
+                let f = real_lexfold(&fm, &w);
+                rep.evaluations += 2;
+                rep.note_distinct(&format!("lw{}|{}", fm.idx, w));
+                cases.push(format!("LParseC {} {} {}", fm.idx, cstr(&w), clres(&r, clnarsese)));
+                rep.case_descr.push(format!("lexical parse[{}] {:?}", fm.name, w));
+                if r != base {
+                    rep.fail(Failure {
+                        stream: "lexical-whitespace".into(),
+                        what: "whitespace between tokens changes the lexical parse".into(),
+                        input: format!("[{}] {:?} ({}; without whitespace: {:?})", fm.name, w, how, dense),
+                        expected: show(&base),
+                        got: show(&r),
+                        known: None,
+                    });
+                }
+                if canon(&f) != canon(&base_fold) {
+                    rep.fail(Failure {
+                        stream: "lexical-whitespace".into(),
+                        what: "whitespace between tokens changes the result of lexical parse + fold".into(),
+                        input: format!("[{}] {:?} ({}; without whitespace: {:?})", fm.name, w, how, dense),
+                        expected: canon(&base_fold),
+                        got: canon(&f),
+                        known: None,
+                    });
+                }
+            }
+        }
+        rep.hist.add(format!("{}:lexical-whitespace:values:ascii-text={},non-ascii-text={}", fm.name, count[0], count[1]));
+    }
+    rep.rule.push_str(
+        " || lexical half: each of the 25 White_Space characters alone (at every token boundary / doubled / leading / trailing / beside and in place of the canonical blanks) and all mixed, \
+         in the token sequence of well-formed values whose text is pure ASCII (all six ASCII whitespace characters each) and of values whose text is not, x 3 formats: \
+         real lexical parse vs lexical parser model on every variant (second shard set, Run/LexRun.v); on the real code: lexical parse and lexical parse + fold of every variant = those of the text without any whitespace",
+    );
+    let shards = write_shards(&o.outdir, &format!("{}L", rep.prop), "Nv.Run.LexRun", "mismatches_lex", "lcase", "N_scope", &cases, o.shards, "").unwrap();
+    rep.shards.extend(shards.into_iter().map(|(p, lo, hi)| (p, lo + offset, hi + offset)));
+    rep
 }
